@@ -1,7 +1,5 @@
-(* go_eq_spec: the Go functions of encoding/protowire/wire.go, as translated to
-   Gallina by srcmodel on every run (Gen/WireGo.v), equal the specification
-   functions of Wire/WireModel.v on their domains.  If wire.go changes, WireGo.v
-   changes, and these proofs either still go through or break. *)
+(* go_eq_spec for AppendVarint: the ten-way switch of wire.go, as translated by
+   srcmodel (Gen/WireGo.v), emits exactly [enc_varint v] for every v < 2^64. *)
 From Coq Require Import List Arith NArith ZArith Lia Bool.
 From Coq Require Import ZifyBool ZifyNat ZifyN.
 From PB Require Import Base.PBytes Base.GoInt Wire.WireModel Wire.WireGrammar Wire.VarintP Wire.ScanP Wire.PrimP.
